@@ -33,7 +33,7 @@ ASSUMPTIONS = [
     "N<=4 observations (thorough 5), Dw<=3, Dy<=2; T<=5 (thorough 12)",
     "route (c) inherits known finding F3 (set_y normaliser) when Dy != Dw: evidence off by |S|(Dw-Dy)/2 ln 2pi, posterior unaffected",
 ]
-BOUNDS = {"quick": dict(N=4, Dw=[1, 2, 3], Dy=[1, 2], T=5), "thorough": dict(N=5, Dw=[1, 2, 3], Dy=[1, 2], T=12)}
+BOUNDS = {"quick": dict(N=4, Dw=[1, 2, 3], Dy=[1, 2], T=5), "thorough": dict(N=6, Dw=[1, 2, 3, 4], Dy=[1, 2, 3], T=16)}
 BUDGET = {"quick": 600, "thorough": 3600}
 
 
@@ -42,12 +42,12 @@ def shards(tier, seed):
     B = BOUNDS[tier]
     for Dw in B["Dw"]:
         for Dy in B["Dy"]:
-            for vi in ([0, 100] if tier == "quick" else [0, 1, 100, 101]):
+            for vi in ([0, 100] if tier == "quick" else [0, 1, 100, 101, 102, 103, 104, 105]):
                 out.append(dict(id="C11/reg/Dw%d.Dy%d/v%d" % (Dw, Dy, vi), part="reg", Dw=Dw, Dy=Dy, vi=vi, N=B["N"], cost=Dw * 4, facts=dict(Dx=Dw, Dy=Dy, kind="full")))
     for Dz in (1, 2):
         for Dx in (1, 2):
             for Rp in (1, 2):
-                for vi in ([0, 100] if tier == "quick" else [0, 1, 100, 101]):
+                for vi in ([0, 100] if tier == "quick" else [0, 1, 100, 101, 102, 103, 104, 105]):
                     out.append(dict(id="C11/kalman/Dz%d.Dx%d/Rp%d/v%d" % (Dz, Dx, Rp, vi), part="kalman", Dz=Dz, Dx=Dx, Rp=Rp, vi=vi, T=B["T"], cost=3, facts=dict(Dz=Dz, Dx=Dx, Rp=Rp)))
     return out
 
